@@ -181,11 +181,11 @@ prop(
     "online shadow-model monitor with an invariant hook: each history (configuration, operation sequence, callback seed) runs on a fresh cache; after EVERY API call, including calls issued from inside OnDelete, cache.VerifInspect "
     "(build tag verif: walks the intrusive list under the cache's own mutex, checks prev/next links, map<->list agreement and the byte accounting) is compared with the model: live entries and LRU order, Size == sum of key+value lengths "
     "<= MaxSize, Count <= MaxCount, Hit/Miss, return values of Get/Set/Stats. Evictions are observed (OnDelete, or inferred from the snapshot when OnDelete is nil) and judged: least recently used entry, right key and value, exactly once, "
-    "room needed under the permissive rule. 800 configurations (MaxSize x MaxElementSize x MaxCount x EnableLRU x OnDelete nil/recorder/re-entrant). A history is one case (distinct by construction)",
+    "room needed under the permissive rule. A callback that fails (panic recovered by the caller, runtime.Goexit) ends the model comparison; the calls that follow must return (watchdog: 20 s, then the history alone for 60 s), not panic, and leave the structure intact. 800 configurations (MaxSize x MaxElementSize x MaxCount x EnableLRU x OnDelete nil/recorder/re-entrant). A history is one case (distinct by construction)",
     [st("model", "c09", "TestModel", checkptr=True, timeout_q=600, timeout_t=3000),
      st("asan", "c09", "TestModel", asan=True, tiers=["thorough"], timeout_t=3000, env={"VERIF_TIER_OVERRIDE": "quick"}),
      st("fuzz", "c09", "FuzzC09", fuzz=True, tiers=["thorough"], fuzztime_t="120s")],
-    floors=[dict(stage="model", key="histories", min=1_000_000), dict(stage="model", key="evictions_observed", min=100_000), dict(stage="model", key="reentrant_calls", min=10_000)],
+    floors=[dict(stage="model", key="histories_with_a_failing_callback", min=300), dict(stage="model", key="histories", min=1_000_000), dict(stage="model", key="evictions_observed", min=100_000), dict(stage="model", key="reentrant_calls", min=10_000)],
     assumptions=["a to-be-replaced entry may or may not be counted as occupying room (both accountings are accepted: see DESIGN section 3, C09)", "keys and values handed to the cache are never mutated afterwards (the documented aliasing contract)"],
 )
 
